@@ -6,6 +6,148 @@ import Verif.Proofs.Refine.Fifo
 namespace Verif
 open Verif.Spec
 
+namespace Fifo
+
+/-- the keys of the model state -/
+abbrev K : FifoState → List Key := fun s => keys s.ents
+
+/-- `L` is the ghost `g` restricted to the keys of `L` -/
+def Restr (g L : List Key) : Prop := L = g.filter (fun x => decide (x ∈ L))
+
+theorem bornOrder_snoc (p : STrace FifoState) (s : FifoState) (now : Time) (x : Atom) :
+    bornOrder K (p ++ [(s, now, x)]) = bornStep (keys s.ents) (bornOrder K p) x := by
+  simp [bornOrder, List.foldl_append]
+
+/-- restricting both sides by a predicate -/
+theorem Restr.filter {g L : List Key} (h : Restr g L) (p : Key → Bool) :
+    Restr (g.filter p) (L.filter p) := by
+  unfold Restr at h ⊢
+  refine (congrArg (List.filter p) h).trans ?_
+  rw [List.filter_filter, List.filter_filter]
+  apply List.filter_congr
+  intro x _
+  by_cases hp : p x = true <;> by_cases hl : x ∈ L <;> simp [hp, hl]
+
+/-- restricting the resident keys only -/
+theorem Restr.sub {g L : List Key} (h : Restr g L) (p : Key → Bool) :
+    Restr g (L.filter p) := by
+  unfold Restr at h ⊢
+  refine (congrArg (List.filter p) h).trans ?_
+  rw [List.filter_filter]
+  apply List.filter_congr
+  intro x _
+  by_cases hp : p x = true <;> by_cases hl : x ∈ L <;> simp [hp, hl]
+
+theorem Restr.tail {g : List Key} {a : Key} {t : List Key} (h : Restr g (a :: t))
+    (hn : (a :: t).Nodup) : Restr g t := by
+  have := h.sub (fun x => !decide (x = a))
+  have e : (a :: t).filter (fun x => !decide (x = a)) = t := by
+    rw [List.nodup_cons] at hn
+    rw [List.filter_cons]
+    simp only [decide_true, Bool.not_true, Bool.false_eq_true, if_false]
+    rw [List.filter_eq_self]
+    intro x hx
+    have : x ≠ a := fun hh => hn.1 (hh ▸ hx)
+    simp [this]
+  rw [e] at this
+  exact this
+
+/-- a creating insert: the key goes to the end of both -/
+theorem Restr.snoc {g L : List Key} (h : Restr g L) {k : Key} (hk : k ∉ L) :
+    Restr (dropKey g k ++ [k]) (L ++ [k]) := by
+  unfold Restr at h ⊢
+  rw [List.filter_append]
+  have e1 : List.filter (fun x => decide (x ∈ L ++ [k])) [k] = [k] := by simp
+  rw [e1]
+  congr 1
+  unfold dropKey
+  rw [List.filter_filter]
+  have e2 : L = g.filter (fun x => decide (x ∈ L)) := h
+  refine e2.trans ?_
+  apply List.filter_congr
+  intro x _
+  by_cases hx : x = k
+  · subst hx; simp [hk]
+  · simp [hx]
+
+/-- the invariant: the refinement invariant, and the entry list is the insertion-rank ghost
+restricted to the resident keys -/
+def OrdInv (cap : Nat) (p : STrace FifoState) (s : FifoState) : Prop :=
+  Inv cap s ∧ Restr (bornOrder K p) (keys s.ents)
+
+theorem ordInv_step (cap : Nat) (p : STrace FifoState) (s : FifoState) (now : Time) (x : Atom)
+    (s' : FifoState) (h : OrdInv cap p s) (hs : CStep core s now x s') :
+    OrdInv cap (p ++ [(s, now, x)]) s' := by
+  obtain ⟨hI, hR⟩ := h
+  refine ⟨((refines cap).cstep (now := now) hI hs).1, ?_⟩
+  rw [bornOrder_snoc]
+  cases hs with
+  | pre => exact hR
+  | ins k v a ttl =>
+    simp only [core, Fifo.insert1]
+    cases hg : getE s.ents k with
+    | some e =>
+      have hk : k ∈ keys s.ents := getE_isSome_iff.mp (by simp [hg])
+      by_cases ha : a.upd = true
+      · simp only [ha, if_true, bornStep, hk, keys_setVal]
+        exact hR
+      · simp only [ha, Bool.false_eq_true, if_false, bornStep]
+        exact hR
+    | none =>
+      have hk : k ∉ keys s.ents := getE_eq_none_iff.mp hg
+      by_cases ha : a.ins = true
+      · simp only [ha, if_true, bornStep, hk, if_false, keys_append]
+        have e1 : keys [({ key := k, val := v } : Entry)] = [k] := rfl
+        rw [e1]
+        by_cases hfull : s.ents.length ≥ s.cap
+        · simp only [hfull, if_true]
+          cases hl : s.ents with
+          | nil => exact (hl ▸ hR).snoc (by simp [keys])
+          | cons e0 t =>
+            simp only [List.tail_cons]
+            have hn : (keys (e0 :: t)).Nodup := by rw [← hl]; exact hI.nodup
+            have hR' : Restr (bornOrder K p) (keys (e0 :: t)) := by rw [← hl]; exact hR
+            have hk' : k ∉ keys (e0 :: t) := by rw [← hl]; exact hk
+            simp only [keys, List.map_cons] at hn hR' hk'
+            exact (hR'.tail hn).snoc (fun hm => hk' (List.mem_cons_of_mem _ hm))
+        · simp only [hfull, if_false]
+          exact hR.snoc hk
+      · simp only [ha, Bool.false_eq_true, if_false, bornStep]
+        exact hR
+  | look k peek => exact hR
+  | del k =>
+    simp only [core, Fifo.erase1]
+    cases hg : getE s.ents k with
+    | some e =>
+      simp only [bornStep, keys_delE]
+      exact hR.filter _
+    | none =>
+      simp only [bornStep]
+      exact hR
+  | clear hc => simp [core] at hc
+  | reap => exact hR
+  | age => exact hR
+  | setTtl t => exact hR
+  | obsSize => exact hR
+  | obsEmpty => exact hR
+  | obsCap => exact hR
+
+theorem ordInv_run {cap : Nat} (hcap : 0 < cap) {tr : STrace FifoState} {s : FifoState}
+    (hrun : CRun core (init cap) tr s) : OrdInv cap tr s := by
+  have h0 : OrdInv cap [] (init cap) := ⟨inv_init hcap, by simp [Restr, init, keys, bornOrder]⟩
+  have := CRun.invariant (P := OrdInv cap) (ordInv_step cap) h0 hrun
+  simpa using this
+
+/-- inversion of an accepted insert step -/
+theorem ins_step_inv {s s' : FifoState} {now : Time} {k : Key} {v : Val} {al : Allow} {d : Time}
+    {ok : Bool} (hstep : CStep core s now (.ins k v al d ok) s') :
+    s' = (insert1 s k v al).1 ∧ ok = (insert1 s k v al).2 := by
+  generalize hx : Atom.ins k v al d ok = x at hstep
+  cases hstep <;> try (cases hx)
+  exact ⟨rfl, rfl⟩
+
+end Fifo
+
 /-- **C12.** When an accepted insert of a new key finds the cache full, the entry removed is the
 resident key whose creating insert is earliest (`bornOrder`: updates and lookups never move a key; a
 key erased or evicted and inserted again counts from its re-insertion). -/
@@ -16,6 +158,39 @@ theorem C12_fifo (cap : Nat) (hcap : 0 < cap) {tr : STrace FifoState} {s s' : Fi
     (hnew : k ∉ keys s.ents) (hfull : cap ≤ s.ents.length) :
     ∃ w, firstIn (bornOrder (fun s => keys s.ents) tr) (keys s.ents) = some w ∧
       Evicts (keys s.ents) (keys s'.ents) k w := by
-  sorry
+  obtain ⟨hI, hR⟩ := Fifo.ordInv_run hcap hrun
+  obtain ⟨hs', hok⟩ := Fifo.ins_step_inv hstep
+  have hg : getE s.ents k = none := getE_eq_none_iff.mpr hnew
+  have hge : s.ents.length ≥ s.cap := by rw [hI.cap_eq]; exact hfull
+  simp only [Fifo.insert1, hg] at hs' hok
+  by_cases ha : al.ins = true
+  · simp only [ha, if_true, hge] at hs'
+    subst hs'
+    cases hl : s.ents with
+    | nil => rw [hl] at hfull; simp at hfull; omega
+    | cons e0 t =>
+      have hn : (keys (e0 :: t)).Nodup := by rw [← hl]; exact hI.nodup
+      have hR' : Fifo.Restr (bornOrder Fifo.K tr) (keys (e0 :: t)) := by rw [← hl]; exact hR
+      have hk' : k ∉ keys (e0 :: t) := by rw [← hl]; exact hnew
+      simp only [List.tail_cons, keys_append]
+      simp only [keys, List.map_cons, List.map_nil, List.nodup_cons, List.mem_cons, not_or] at hn hk' hR' ⊢
+      refine ⟨e0.key, ?_, ?_⟩
+      · unfold firstIn
+        rw [← List.head?_filter]
+        show List.head? (List.filter (fun x => decide (x ∈ e0.key :: List.map (·.key) t))
+          (bornOrder Fifo.K tr)) = some e0.key
+        rw [← hR']
+        rfl
+      · refine ⟨List.mem_cons.mpr (Or.inl rfl), fun h => hk'.1 h.symm, ?_, ?_⟩
+        · intro hm
+          rcases List.mem_append.mp hm with hm | hm
+          · exact hn.1 hm
+          · simp only [List.mem_singleton] at hm
+            exact hk'.1 hm.symm
+        · intro u hu hne
+          rcases List.mem_cons.mp hu with hu | hu
+          · exact absurd hu hne
+          · exact List.mem_append_left _ hu
+  · simp [ha] at hok
 
 end Verif
